@@ -71,8 +71,14 @@ def match_finding(findings, v):
 # ------------------------------------------------------------------------------------------
 # evidence
 # ------------------------------------------------------------------------------------------
+PARTIAL = [False]   # --envs runs (development) must not overwrite the registered evidence file
+
+
 def write_evidence(prop, tier, seed, level, coverage, assumptions, wall, violations):
     os.makedirs(EVID, exist_ok=True)
+    if PARTIAL[0]:
+        os.makedirs(os.path.join(EVID, "partial"), exist_ok=True)
+        prop = os.path.join("partial", prop)
     ev = {"property_id": prop, "tier": tier, "seed": seed, "level": level, "coverage": coverage,
           "assumptions": assumptions, "wall_s": round(wall, 2), "violations": violations}
     with open(os.path.join(EVID, f"{prop}.json"), "w") as f:
@@ -231,6 +237,7 @@ def main():
     common.setup_env()
     seed = common.seed()
     only = set(args.envs.split(",")) if args.envs else None
+    PARTIAL[0] = bool(only) and not args.replay
     prop = args.prop
     if args.replay:
         with open(args.replay) as f:
